@@ -17,11 +17,11 @@ import (
 // GoFile is the declaration-level view of one emitted Go file.
 type GoFile struct {
 	Pkg        string
-	Unresolved []string // identifiers that resolve neither in the file, nor to an import, nor to the universe
-	Imports map[string]string // import path -> local name
-	Decls   map[string]string // key -> printed text; key = "type T", "func (T) M", "var v", "const c"
-	Dups    []string          // keys declared more than once in this file
-	Err     error
+	Unresolved []string          // identifiers that resolve neither in the file, nor to an import, nor to the universe
+	Imports    map[string]string // import path -> local name
+	Decls      map[string]string // key -> printed text; key = "type T", "func (T) M", "var v", "const c"
+	Dups       []string          // keys declared more than once in this file
+	Err        error
 }
 
 func ParseGo(src []byte) *GoFile {
